@@ -220,3 +220,19 @@ Example C08_converged_messages :
   converged_msg "Iterate (elected)" = false /\ converged_msg "Iterate (none)" = false /\
   is_remaining "Defeat remaining: Cyd" = true /\ is_remaining "Defeat certain loser: Cyd" = false.
 Proof. repeat split. Qed.
+
+(* ... and the PRF reference Meek rule (meek-prf), which logs no 'iterate' actions: the exclusion message itself says why the
+   iteration ended.  Every exclusion of a count that did not crash is the closing "Defeat remaining", or
+   "Defeat (surplus X < omega)" with a recorded total surplus below omega ([ltv]: the arithmetic's own <), or
+   "Defeat (stable surplus X)" with the log line "Stable state detected (...)" earlier in the same round ([stable_logged]
+   looks back through the record up to the round's 'round' action). *)
+Theorem C08_meek_prf_excludes_only_after_convergence_whole_run : forall A cfg, cf_method cfg = MMeek ->
+  forall pr fuel s k,
+  exec (@crashed A) fuel (count_cmd A cfg RMeekPrf) (init_state A cfg pr) = Some (s, k) -> k <> Abort ->
+  forall pre a older, actions s = (pre ++ a :: older)%list -> a_tag a = TDefeat ->
+    is_remaining (a_msg a) = true \/
+    (prefix "Defeat (surplus " (a_msg a) = true /\
+       exists sn sp, a_snap a = Some sn /\ as_surplus sn = Some sp /\ ltv A sp (omega_or0 A cfg) = true) \/
+    (prefix "Defeat (stable surplus " (a_msg a) = true /\ stable_logged A older = true).
+Proof. exact count_meek_prf_exits. Qed.
+Print Assumptions C08_meek_prf_excludes_only_after_convergence_whole_run.
